@@ -7,6 +7,7 @@ package env
 import (
 	"context"
 	"fmt"
+	apierrors "k8s.io/apimachinery/pkg/api/errors"
 	"sort"
 	"strconv"
 
@@ -42,8 +43,15 @@ func ownedBy(o metav1.Object, owner metav1.Object) bool {
 	return ref != nil && ref.UID == owner.GetUID()
 }
 
+// envConflict is what an actor's step ends with when a controller changed the object between the actor's read and its
+// write (possible only when reconciles run on other goroutines): the actor simply retries at its next step.
+type envConflict struct{}
+
 func must(err error) {
 	if err != nil {
+		if apierrors.IsConflict(err) || apierrors.IsNotFound(err) || apierrors.IsAlreadyExists(err) {
+			panic(envConflict{})
+		}
 		panic(fmt.Sprintf("env actor: %v", err))
 	}
 }
@@ -54,12 +62,25 @@ func (e *Env) Step(pick int) string {
 	actors := []func() string{e.stepDeployments, e.stepReplicaSets, e.stepPods, e.stepCloneSets, e.stepStatefulSets, e.stepDaemonSets}
 	n := len(actors)
 	for i := 0; i < n; i++ {
-		if a := actors[(pick+i)%n](); a != "" {
+		if a := e.safely(actors[(pick+i)%n]); a != "" {
 			e.Steps[a]++
 			return a
 		}
 	}
 	return ""
+}
+
+func (e *Env) safely(f func() string) (a string) {
+	defer func() {
+		if p := recover(); p != nil {
+			if _, ok := p.(envConflict); ok {
+				a = "retry-after-conflict"
+				return
+			}
+			panic(p)
+		}
+	}()
+	return f()
 }
 
 // Quiescent reports whether no actor has anything to do.
